@@ -17,6 +17,22 @@ def sh(cmd, cwd=None, timeout=3000):
     p = subprocess.run(cmd, cwd=cwd, env=ENV, shell=True, stdout=subprocess.PIPE, stderr=subprocess.STDOUT, text=True, timeout=timeout)
     return p.returncode, p.stdout
 
+def apply_patch(d, wt):
+    """patch.diff was written against the pinned commit; the repository has since gained hook and fix commits.
+    patch.rebased.diff (if present) is the same change re-expressed against the current HEAD."""
+    for name in ("patch.rebased.diff", "patch.diff"):
+        f = os.path.join(d, name)
+        if not os.path.exists(f):
+            continue
+        rc, out = sh("git apply %s" % f, cwd=wt)
+        if rc == 0:
+            return rc, out
+        rc, out = sh("patch -p1 -F3 --no-backup-if-mismatch < %s" % f, cwd=wt)
+        if rc == 0:
+            return rc, out
+        sh("git checkout -- .", cwd=wt)
+    return 1, out
+
 def main():
     mode, d = sys.argv[1], os.path.abspath(sys.argv[2])
     tier = sys.argv[4] if len(sys.argv) > 4 and sys.argv[3] == "--tier" else "quick"
@@ -35,7 +51,7 @@ def main():
             rc, out = sh("go1.26 test -count=1 -vet=off -run '%s' ./%s/" % (run, meta["demo_pkg"]), cwd=modroot)
             res["demo_clean_pass"] = rc == 0
             res["demo_clean_tail"] = out[-600:]
-            rc, out = sh("git apply %s" % os.path.join(d, "patch.diff"), cwd=wt)
+            rc, out = apply_patch(d, wt)
             res["patch_applies"] = rc == 0
             rc, out = sh("go1.26 build ./...", cwd=modroot)
             res["builds"] = rc == 0
@@ -62,7 +78,7 @@ def main():
             json.dump(res, open(os.path.join(d, "confirm.json"), "w"), indent=1)
             print(name, "confirmed" if res["confirmed"] else "NOT CONFIRMED", {k: v for k, v in res.items() if isinstance(v, bool)})
         else:
-            rc, out = sh("git apply %s" % os.path.join(d, "patch.diff"), cwd=wt)
+            rc, out = apply_patch(d, wt)
             if rc != 0:
                 print("patch does not apply:", out); return 2
             props = meta["property"] if isinstance(meta["property"], list) else [meta["property"]]
